@@ -3,7 +3,7 @@ model has.  Values stay symbolic (solver); these generators only widen the enume
 from fractions import Fraction as Fr
 
 from .dsl import (Con, C, X, U, Z, Pg, Vg, Q, t, T, t0, tf, DT, DTc, nl1, nl2, at_t0, at_tf, integral,
-                  integral_control, sum_, offset)
+                  integral_control, sum_, offset, PINF, NINF)
 from .families import rexpr, pdeg
 
 
@@ -196,7 +196,12 @@ def _random_constraints(rng, spec, method, M, n=None):
             comps = [_must_contain(rng, node, signal_must, 1, 2) for _ in range(m)]
             bound = [rhs_const() for _ in range(m)] if rng.random() < 0.5 else rhs_const()
             if op == '<=<=':
-                out.append(Con('<=<=', -3, [rng.choice([2, 5]) for _ in range(m)], mid=comps))
+                lo = [rng.choice([-3, -1, NINF]) for _ in range(m)]
+                hi = [rng.choice([2, 5, PINF]) for _ in range(m)]
+                for j_ in range(m):
+                    if isinstance(lo[j_], type(NINF)) and isinstance(hi[j_], type(NINF)):
+                        hi[j_] = 5          # a row without any bound is no constraint
+                out.append(Con('<=<=', lo, hi, mid=comps))
             else:
                 out.append(Con(op, comps, bound, grid=rng.choice([None, 'integrator']) if all(_leaf_ok_intg(c) for c in comps) else None))
         elif k == 'glob':
